@@ -120,7 +120,8 @@ BindCons == {C0("id"), C0("expr"), C0("bid"), C0("bdef"), CN("barr", 0), CN("bar
              CO("forof", "let"), CO("forin", "var"), CO("bin", "+"), CO("bin", "in"), C0("empty")}
 \* destructuring assignment (the cover grammar: array / object literals re-read as patterns)
 AsgPat == {C0("id"), C0("expr"), CO("asg", "="), CO("asg", "+="), CN("arr", 1), CN("arr", 2), CON("arr", "h1", 1), CN("obj", 1), CN("obj", 2), C0("psh"), CO("pkv", "pr"), C0("pcomp"),
-           C0("spread"), C0("pspread"), C0("grp"), C0("dot"), C0("idx"), CO("forof", "e"), CO("forin", "e"), C0("empty")}
+           C0("spread"), C0("pspread"), C0("grp"), C0("dot"), C0("idx"), CO("forof", "e"), CO("forin", "e"), C0("empty"),
+           CO("fn", ""), CO("fn", "async"), CN("ps", 0), CN("blk", 0), CN("cls", 0)}
 \* statements inside class bodies; private names
 ClassBody == {C0("id"), C0("expr"), CN("ps", 0), CN("blk", 0), CN("blk", 1), C0("ctor"), C0("sblock"), CN("pfield", 0), CO("pmeth2", ""), CO("meth", ""), CO("smeth", "async"),
               CON("cdecl", "", 2), CON("clsn", "", 2), C0("pdot"), C0("opdot"), C0("dot"), CO("asg", "="), C0("ret"), C0("nt"), CO("un", "await"), C0("ret0")}
